@@ -300,8 +300,8 @@ func helper{N}() int { return {N} }
 		}
 	case "ok_multi":
 		return []world.File{
-			f("model.go", basicModel),
-			f("qux.go", `package {P}
+			// three Go files in the wireinject build (not a power of two), the second injector file sorting AFTER wire_gen.go
+			f("model.go", `package {P}
 
 import "example.com/lib"
 
@@ -309,7 +309,7 @@ type Qux struct {
 	B Baz
 	D lib.Dep
 }
-`),
+`+strings.TrimPrefix(basicModel, "package {P}\n")),
 			f("wire_a.go", injectHeader+`package {P}
 
 import "github.com/google/wire"
@@ -323,7 +323,7 @@ func InitBaz(f Foo) Baz {
 	panic(wire.Build(ProvideBar, ProvideBaz))
 }
 `),
-			f("wire_b.go", injectHeader+`package {P}
+			f("wire_z.go", injectHeader+`package {P}
 
 import (
 	"example.com/lib"
